@@ -642,6 +642,11 @@ class _GenState:
         old table, then discriminating queries."""
         rng = self.rng
         n = 0
+        if rng.random() < 0.12:
+            # the caller keeps and corrupts whatever the set call returned (None today), then reads
+            yield {"op": "mutate", "h": idx - 1, "ret": True, "how": rng.choice(("clear", "junk", "pop_q", "bump_all")), "arg": None}
+            yield {"op": "observe"}
+            n += 2
         for op in self.pending_repeat:
             if rng.random() < 0.7:
                 yield dict(op, why="repeat_after_change")
